@@ -92,8 +92,19 @@ def main():
                                     "note": "the harness could not interpret an answer of the tool; no failing input was isolated"}, indent=1))
         print(f"VIOLATION property={a.prop} replay={path.relative_to(common.VERIF)} no-failing-input-found")
         return 1
-    except Exception:
+    except Exception as e:
         traceback.print_exc()
+        # an exception of any other class that was raised *inside the tool's own code* and reached the harness where the unchanged tool never raises
+        # (a ValueError while reading a VERSION file, say): the tool's behaviour changed in a way the run could not follow - same report as above
+        frames = traceback.extract_tb(e.__traceback__)
+        in_tool = any(str(f.filename).startswith(str(common.REPO) + os.sep) for f in frames)
+        if in_tool and not a.replay and not isinstance(e, (OSError, MemoryError)):
+            path = common.VERIF / "replays" / f"{a.prop}-harness-lost.json"
+            path.parent.mkdir(exist_ok=True)
+            path.write_text(json.dumps({"kind": "correspondence-broken", "property": a.prop, "exception": type(e).__name__, "traceback": traceback.format_exc()[-6000:],
+                                        "note": "the tool raised where the unchanged tool answers; no failing input was isolated"}, indent=1))
+            print(f"VIOLATION property={a.prop} replay={path.relative_to(common.VERIF)} no-failing-input-found")
+            return 1
         print(f"HARNESS-ERROR property={a.prop}")
         return 2
 
